@@ -734,7 +734,7 @@ pub fn probe_positions(m: &TreeModel, extra: &[usize]) -> Vec<usize> {
         // after a large range / batch write: every position of a mid-size tree, otherwise every
         // written position and its sibling (a storage layer that loses part of a large write must
         // not slip between sampled probes)
-        if cap <= 2048 {
+        if cap <= 8192 {
             return (0..cap).collect();
         }
         let mut v: Vec<usize> = vec![0, 1, cap / 2 - 1, cap / 2, cap - 2, cap - 1];
@@ -799,6 +799,9 @@ pub fn compare(b: &mut dyn Backend, m: &TreeModel, focus: Focus, extra: &[usize]
             }
             n += 1;
             let levels: Vec<usize> = if m.depth <= 6 || extra.len() > 64 { (0..=m.depth).collect() } else { vec![0, 1, m.depth / 2, m.depth - 1, m.depth] };
+            // after a large write on a tree of up to 8192 leaves the ideal tree's nodes are computed
+            // bottom-up once instead of recursively per probe
+            let dense = if extra.len() > 64 && m.depth <= 13 { Some(m.dense_levels()) } else { None };
             for level in levels {
                 let mut seen = std::collections::BTreeSet::new();
                 for &i in &probes {
@@ -807,7 +810,10 @@ pub fn compare(b: &mut dyn Backend, m: &TreeModel, focus: Focus, extra: &[usize]
                         continue;
                     }
                     let got = b.subtree_root(level, i).map_err(|e| format!("{name}: get_subtree_root({level},{i}) failed: {e}"))?;
-                    let want = m.subtree_root(level, i).unwrap();
+                    let want = match &dense {
+                        Some(d) => d[level][node],
+                        None => m.subtree_root(level, i).unwrap(),
+                    };
                     if got != want {
                         return Err(format!("{name}: get_subtree_root({level},{i}) = {}, ideal = {}", fr_to_big(&got), fr_to_big(&want)));
                     }
@@ -936,7 +942,7 @@ pub fn vals(max: usize) -> BoxedStrategy<Vec<u8>> {
 /// a few hundred to a couple of thousand leaves in one request (more node entries than any
 /// batching threshold a storage layer is likely to use); values cycle through the pool
 pub fn big_vals() -> BoxedStrategy<Vec<u8>> {
-    (prop_oneof![Just(257usize), Just(512usize), Just(600usize), Just(1024usize), Just(1500usize), 65usize..2000], 1u8..POOL as u8)
+    (prop_oneof![Just(257usize), Just(512usize), Just(600usize), Just(1024usize), Just(1500usize), Just(2100usize), Just(3000usize), Just(4097usize), 65usize..2000, 2000usize..5000], 1u8..POOL as u8)
         .prop_map(|(n, k)| (0..n).map(|i| 1 + ((i as u8).wrapping_mul(k)) % (POOL as u8 - 1)).collect())
         .boxed()
 }
@@ -968,8 +974,8 @@ pub fn op_batch() -> BoxedStrategy<Op> {
 
 pub fn depth_strategy(tier: Tier) -> BoxedStrategy<usize> {
     match tier {
-        Tier::Quick => prop_oneof![10 => 1usize..=6, 1 => Just(10usize)].boxed(),
-        Tier::Thorough => prop_oneof![20 => 1usize..=6, 2 => Just(10usize), 1 => Just(20usize)].boxed(),
+        Tier::Quick => prop_oneof![20 => 1usize..=6, 2 => Just(10usize), 1 => Just(12usize)].boxed(),
+        Tier::Thorough => prop_oneof![40 => 1usize..=6, 4 => Just(10usize), 2 => Just(12usize), 1 => Just(13usize), 2 => Just(20usize)].boxed(),
     }
 }
 
